@@ -127,6 +127,8 @@ func ruleSetRules(src int, kind string) []rulecfg.Rule {
 
 var contentKinds = []string{"v1", "v2", "v3", "v1", "v2", "empty", "empty-line", "empty-comment", "syntax", "semantic", "gone"}
 
+func isVersion(kind string) bool { return kind == "v1" || kind == "v2" || kind == "v3" }
+
 // isEmpty: content without any rule set in it (no bytes, white space, comments)
 func isEmpty(kind string) bool { return strings.HasPrefix(kind, "empty") }
 
@@ -1058,6 +1060,41 @@ func TestCloudBlobSingleObjectConverges(t *testing.T) {
 
 			history = append(history, "op: src0.yaml <- "+kind)
 			nt = nt || kind != "v1" && kind != "v2" && kind != "v3"
+
+			// now and then a new version is uploaded while heimdall is fetching the object: whichever of the two versions that
+			// poll applies, after the next one the new version is active, and it has not been applied more than once
+			if isVersion(content) && rapid.IntRange(0, 4).Draw(t, "replacedWhileFetched") == 2 {
+				next := rapid.SampledFrom([]string{"v1", "v2", "v3"}).Draw(t, "uploadedMeanwhile")
+				if next != content {
+					faults.mu.Lock()
+					faults.swap = map[string][]byte{"src0.yaml": []byte(ruleSetYAML(0, next)), "/src0.yaml": []byte(ruleSetYAML(0, next))}
+					faults.mu.Unlock()
+
+					history = append(history, fmt.Sprintf("poll (object holds %q; %q is uploaded between the requests of this poll)", content, next))
+
+					_ = prov.Poll(fetcher)
+
+					faults.mu.Lock()
+					faults.swap = nil
+					faults.mu.Unlock()
+
+					rec.take()
+
+					content = next
+					m.applied[0] = active(w, 0) // one of the two versions (or still the one before)
+					history = append(history, fmt.Sprintf("  -> active: %q", m.applied[0]))
+
+					want := m.observe(0, content)
+					history = append(history, fmt.Sprintf("poll (object holds %q)", content))
+
+					_ = prov.Poll(fetcher)
+
+					checkStep(t, w, rec, m, 1, want, history)
+					vkit.S.Label("cloud_blob.object_replaced_while_fetched")
+
+					nt = true
+				}
+			}
 
 			for k, n := 0, rapid.IntRange(0, 2).Draw(t, "polls"); k < n; k++ {
 				fault := rapid.SampledFrom([]string{"none", "none", "none", "unknown", "deadline"}).Draw(t, "storeFault")
